@@ -209,13 +209,13 @@ class C17(Prop):
 
     def gen(self, rng, tier):
         quick = tier == "quick"
-        for _ in range(170 if quick else 2500):
+        for _ in range(170 if quick else 6000):
             yield self.valid_case(rng, tier, 0)
-        for _ in range(70 if quick else 500):
+        for _ in range(70 if quick else 1500):
             yield self.valid_case(rng, tier, 1)
-        for _ in range(50 if quick else 500):
+        for _ in range(50 if quick else 1500):
             yield self.valid_case(rng, tier, 2)
-        for k, nq, nt in ((3, 20, 100), (5, 20, 150), (4, 15, 100), (6, 25, 150), (7, 30, 250)):
+        for k, nq, nt in ((3, 20, 300), (5, 20, 400), (4, 15, 300), (6, 25, 400), (7, 30, 600)):
             for _ in range(nq if quick else nt):
                 yield self.invalid_case(rng, tier, k)
 
